@@ -7,7 +7,7 @@ history correspondence (Tie B): the same op lines run on the Lean driver and on 
 from vlib import histcheck
 
 MODULE = "TriompheModel.Props.C10"
-EXTRA = ["TriompheModel.Proofs.HistLen", "TriompheModel.Props.Monitor"]
+EXTRA = ["TriompheModel.Proofs.HistLen", "TriompheModel.Props.Monitor", "TriompheModel.Props.C03Sched"]
 TAGS = ['C10']
 WEIGHTS = {'create': 16, 'iter': 8, 'intoThin': 12, 'conv': 18, 'cb': 20, 'clone': 10}
 
@@ -18,7 +18,7 @@ def run(ctx):
     zst_length_pass(ctx)
     # conversions and borrows under a concurrent observer of the count
     from vlib import miri
-    miri.observer_pass(ctx, "C10")
+    miri.observer_pass(ctx, "C10", programs=("convert_vs_count_observer", "thin_with_arc_mut_get_mut"))
     # the same claims over the shape matrix (over-aligned, byte-sized and zero-sized headers / elements), in the dev
     # profile and with release semantics: stored length = slice length, same header and elements at the same addresses
     # as the fat Arc, thin->fat->thin, and `into_thin` refusing (and releasing) an Arc with a disagreeing recorded length
